@@ -131,7 +131,15 @@ impl QueuingExecutor {
         }
     }
 
+    /// Number of tasks currently held by the executor (test-only instrumentation).
+    #[cfg(feature = "verif")]
+    pub(crate) fn verif_tasks(&self) -> usize {
+        self.tasks.lock().expect("Task slab poisoned").len()
+    }
+
     fn run_task(&self, task_id: TaskId) -> RunTask {
+        #[cfg(feature = "verif")]
+        crate::verif::point("ex.run_task");
         let mut lock = self.tasks.lock().expect("Task slab poisoned");
         let Some(task) = lock.get_mut(*task_id as usize) else {
             return RunTask::Missing;
@@ -154,6 +162,8 @@ impl QueuingExecutor {
 
         // poll the task
         if task.as_mut().poll(context).is_pending() {
+            #[cfg(feature = "verif")]
+            crate::verif::point("ex.after_poll");
             // If it's still pending, put the future back in the slot
             self.tasks
                 .lock()
@@ -163,6 +173,8 @@ impl QueuingExecutor {
                 .replace(task);
             RunTask::Suspended
         } else {
+            #[cfg(feature = "verif")]
+            crate::verif::point("ex.after_poll");
             // otherwise the future is completed and we can free the slot
             self.tasks.lock().unwrap().remove(*task_id as usize);
             RunTask::Completed
